@@ -2,7 +2,7 @@
     harness wrote: inputs next to what the real fabio code (and, end to end, the real
     httputil.ReverseProxy / Request.Write / ReadRequest) produced on them. *)
 From Coq Require Import String List NArith ZArith Bool.
-From Fabio Require Import Lib.Outcome Lib.Bytes Lib.Verdict Model.Headers Model.HeadersSpec.
+From Fabio Require Import Lib.Outcome Lib.Bytes Lib.Verdict Model.Headers Model.HeadersSpec Model.HeaderLines.
 Import ListNotations.
 Local Open Scope N_scope.
 
@@ -41,7 +41,16 @@ Inductive case :=
          (ups : list str)   (* Strict-Transport-Security values of the UPSTREAM's response (passed through) *)
          (real : bool)      (* true: [impl]'s STS values are what a client on a real connection received; on the
                                websocket path the connection is hijacked and the ResponseWriter's header map,
-                               STS included, is never sent.  false: the header map of a recording ResponseWriter *).
+                               STS included, is never sent.  false: the header map of a recording ResponseWriter *)
+(* the header map the real net/http server handed to fabio for the header lines a client wrote
+   (ties [parse_lines]; spec: no key without a value, i.e. no nil "do not populate" marker) *)
+| CLines (lines : list hline) (seen : hmap)
+(* header lines -> net/http server -> HTTPProxy.ServeHTTP -> real http.Transport behind
+   ReverseProxy / websocket handler -> loopback upstream: [r] = connection data and header map
+   as net/http handed them to fabio, [impl] = header map the upstream READ OFF THE WIRE and the
+   STS values the client received, [uhost] = the Host line the upstream read *)
+| CWire (cfg : config) (t : target) (uuid : str) (r : request) (lines : list hline)
+        (impl : outcome (hmap * list str)) (uhost : str) (ups : list str).
 
 (* the part of the client's Strict-Transport-Security values that is not the upstream's *)
 Fixpoint drop_prefix (l p : list str) : option (list str) :=
@@ -150,6 +159,33 @@ Definition check_case (c : case) : N :=
                 (if cfg_sane cfg then map (fun k => veq (hfind hi k) (hfind hm k)) (clause_keys cfg) else [])
                 (match strip_suffix si ups with Some own => cl_sts cfg (is_tls r) own | None => true end)
                 (negb (no_region hdr)) (forged cfg hdr)
+      | Err _, Err _ => verdict true (match r_peer r with None => true | _ => false end) None false
+      | Panic, Panic => v_model_spec_fails
+      | Panic, _ => v_disagree_spec_fails
+      | _, _ => v_disagree
+      end
+  | CLines lines seen =>
+      verdict (hmap_eqb seen (parse_lines lines)) (wf_hdr seen) None (existsb blank_line lines)
+  | CWire cfg t uuid r lines impl uhost ups =>
+      (* the clauses are judged against the header map of the LINES (no key without a value,
+         Proofs.HeaderLines.lines_wf: the X-Forwarded-For clause is never excused here) *)
+      let hdr := parse_lines lines in
+      let m := serve_lines cfg t uuid r lines in
+      match impl, m with
+      | Ok (hi, si), Ok (hm, sm) =>
+          let same := hmap_eqb (r_hdr r) hdr &&
+                      hmap_eq_on (managed_keys cfg) hi hm &&
+                      list_eqb beq si (if takes_ws_path hm then []
+                                       else (match sm with Some v => [v] | None => [] end) ++ ups) &&
+                      match upstream_host_wire cfg t uuid (req_of_lines r lines) with
+                      | Ok uh => beq uhost uh | _ => false end in
+          let clf up := if cfg_sane cfg
+                        then clauses cfg hdr (peer_of r) (r_host r) (spec_port (r_host r) (is_tls r)) (is_tls r) true up
+                        else [] in
+          judge same (clf hi) (clf hm)
+                (if cfg_sane cfg then map (fun k => veq (hfind hi k) (hfind hm k)) (clause_keys cfg) else [])
+                (match strip_suffix si ups with Some own => cl_sts cfg (is_tls r) own | None => true end)
+                (negb (no_region hdr)) (forged cfg hdr || existsb blank_line lines)
       | Err _, Err _ => verdict true (match r_peer r with None => true | _ => false end) None false
       | Panic, Panic => v_model_spec_fails
       | Panic, _ => v_disagree_spec_fails
